@@ -11,7 +11,10 @@ pub mod c06;
 pub mod c07;
 pub mod c08;
 pub mod c09;
+pub mod c10;
 pub mod c11;
+pub mod c16;
+pub mod c17;
 
 pub struct Prop {
     pub id: &'static str,
@@ -31,7 +34,10 @@ pub fn all() -> Vec<Prop> {
         Prop { id: "C07", level: "exploration", run: c07::run, replay: c07::replay },
         Prop { id: "C08", level: "exploration", run: c08::run, replay: c08::replay },
         Prop { id: "C09", level: "exploration", run: c09::run, replay: c09::replay },
+        Prop { id: "C10", level: "exploration", run: c10::run, replay: c10::replay },
         Prop { id: "C11", level: "fault_enumeration", run: c11::run, replay: c11::replay },
+        Prop { id: "C16", level: "exploration", run: c16::run, replay: c16::replay },
+        Prop { id: "C17", level: "exploration", run: c17::run, replay: c17::replay },
     ]
 }
 
@@ -121,6 +127,9 @@ pub fn replay(id: &str, path: &str) -> i32 {
     }
 }
 
-pub fn child(_cmd: &str, _args: &[String]) -> i32 {
-    2
+pub fn child(cmd: &str, _args: &[String]) -> i32 {
+    match cmd {
+        "child-gen-golden" => c10::gen_golden(),
+        _ => 2,
+    }
 }
